@@ -689,7 +689,7 @@ Theorem merge_refuses_mismatch fs0 outp ins fs' r :
                     /\ f_hasidx f = true /\ f_hasidx g = false)) ->
   fs' = fs0 /\ exists e, r = OErr e.
 Proof.
-  intros E Hm. destruct r as [| | | | | |e|t vs].
+  intros E Hm. destruct r as [| | | | | |e|t vs|].
   1: { exfalso. apply merge_success in E as (P & _). destruct P as [Px Pf Pnc Pfiles Pb Psig Pidx].
        destruct Hm as [(p & q & f & g & Hp & Hq & Lp & Lq & N)|(p & q & f & g & Hp & Hq & Lp & Lq & A & B)].
        - pose proof (Psig p Hp) as S1. pose proof (Psig q Hq) as S2.
